@@ -209,6 +209,19 @@ def sniff(head, tag, n):
         return b"abc"
     return n in {b"AIFC", "AIFC"}, (b"GIF8", "GIF8", frozenset)
 ''',
+    "inlined_comprehensions": '''
+data = [1, 2, 3]
+squares = [x * x for x in data]
+pairs = {k: v for k, v in zip(data, squares)}
+evens = {y for y in data if y % 2 == 0}
+class Table:
+    rows = [n + 1 for n in data]
+    def cell(self, z):
+        return [z + w for w in self.rows]
+def shadow(x):
+    x = [x for x in range(x)]
+    return lambda: x
+''',
     "big_tables": None,
     "exc_star": '''
 def f():
